@@ -41,6 +41,8 @@ class Models:
         models_store.register(self)
         from . import models_sched
         models_sched.register(self)
+        from . import models_user
+        models_user.register(self)
 
     def reg(self, *keys):
         def deco(f):
@@ -640,6 +642,31 @@ def register_core(M):
             return M.some(dty, ex.field_of(o, 0, 0, M.opt_payload_ty(dty)))
         return M.none(dty)
 
+    @reg('Result::err')
+    def _(ex, info, a, dty):
+        o = ex.materialize(a[0])
+        if ex.branch(M.discr(ex, o) == bv(1)):
+            return M.some(dty, ex.field_of(o, 1, 0, M.opt_payload_ty(dty)))
+        return M.none(dty)
+
+    @reg('Result::map_or_else')
+    def _(ex, info, a, dty):
+        o = ex.materialize(a[0])
+        if ex.branch(M.discr(ex, o) == bv(0)):
+            return ex.call_value(a[2], [ex.field_of(o, 0, 0, '?')])
+        return ex.call_value(a[1], [ex.field_of(o, 1, 0, '?')])
+
+    @reg('Result::and_then')
+    def _(ex, info, a, dty):
+        o = ex.materialize(a[0])
+        if ex.branch(M.discr(ex, o) == bv(0)):
+            return ex.call_value(a[1], [ex.field_of(o, 0, 0, '?')])
+        return Adt(dty, {(1, 0): ex.field_of(o, 1, 0, '?')}, 1, None)
+
+    @reg('hint::must_use', 'must_use')
+    def _(ex, info, a, dty):
+        return a[0]
+
     @reg('Result::map_err')
     def _(ex, info, a, dty):
         o = ex.materialize(a[0])
@@ -667,6 +694,15 @@ def register_core(M):
     def _(ex, info, a, dty):
         st = head(info['self_ty'] or '')
         v = ex.materialize(a[0])
+        sty = (info['self_ty'] or '').strip()
+        if info['key'] in ('AsRef::as_ref', 'AsMut::as_mut', 'Borrow::borrow') and sty.startswith('&') and isinstance(v, Ref):
+            # blanket impl for references: `<&T as AsRef<U>>::as_ref(&&T)` = `T::as_ref(&T)`
+            inner = ex.read_path(v.cell, v.path)
+            if isinstance(ex.materialize(inner), Ref):
+                i2 = dict(info)
+                i2['self_ty'] = strip_ref(sty) or sty
+                i2['text'] = '<%s as %s>::%s' % (i2['self_ty'], info.get('trait') or 'AsRef', info['method'])
+                return M.table[info['key']](ex, i2, [ex.materialize(inner)] + list(a[1:]), dty)
         if info['key'] == 'AsRef::as_ref' and 'str' in generic_args(info['trait'] or ''):
             return v          # &String / &&String / &str viewed as &str: same symbolic string
         if info['key'].startswith('Pin::'):
